@@ -8,6 +8,7 @@
 package main
 
 import (
+	"bytes"
 	"context"
 	"fmt"
 	"io"
@@ -91,6 +92,12 @@ func mprog(w http.ResponseWriter, r *http.Request) {
 		_, _ = w.Write(body[:n])
 	case "O":
 		_, _ = w.Write(body[:n])
+	case "F":
+		// streamed body: io.Copy from a reader without WriteTo goes through the writer's ReadFrom when it has one
+		w.WriteHeader(st)
+		_, _ = io.Copy(w, struct{ io.Reader }{bytes.NewReader(body[:n])})
+	case "G":
+		_, _ = io.Copy(w, struct{ io.Reader }{bytes.NewReader(body[:n])})
 	case "H":
 		w.Header().Set("Link", "</style.css>; rel=preload")
 		w.WriteHeader(http.StatusEarlyHints) // informational: the final status follows
@@ -194,9 +201,9 @@ var mPatterns = []string{"/s", "/p/:id", exclPrefix + "ping"}
 func mPredict(term string, q MReq) (status, size int, label string) {
 	status, size = 200, 0
 	switch q.Mode {
-	case "E", "H":
+	case "E", "H", "F":
 		status, size = q.Status, q.Size
-	case "O":
+	case "O", "G":
 		size = q.Size
 	}
 	if term != "app" {
@@ -339,7 +346,7 @@ func genMReq(r *hx.Rand) MReq {
 	q := MReq{
 		Method: hx.Pick(r, []string{"GET", "GET", "GET", "POST"}),
 		Path:   hx.Pick(r, []string{"/s", "/s", "/p/1", "/p/zz", "/p/1/2", "/nope", exclPrefix + "ping", exclPrefix + "other", "/"}),
-		Mode:   hx.Pick(r, []string{"E", "E", "E", "Q", "O"}),
+		Mode:   hx.Pick(r, []string{"E", "E", "E", "Q", "O", "F", "G"}),
 	}
 	q.Status = hx.Pick(r, []int{200, 201, 204, 301, 400, 404, 418, 500, 503})
 	q.Size = r.Range(0, 300)
@@ -361,5 +368,9 @@ func mWitnesses() []Case {
 		{Kind: "M", Term: "app", Wire: true, MH: []MReq{{Method: "GET", Path: "/s", Mode: "H", Status: 404, Size: 4}, e(200, 3)}},
 		{Kind: "M", Term: "mux", Wire: true, Stack: []string{"M"}, MH: []MReq{{Method: "GET", Path: "/s", Mode: "H", Status: 500, Size: 9}}},
 		{Kind: "M", Term: "mux", Wire: true, Stack: []string{"T"}, MH: []MReq{{Method: "GET", Path: "/s", Mode: "H", Status: 503, Size: 0}}},
+		// a streamed body (io.Copy -> ReadFrom) behind the standalone layers: the app recorder reads the outer writer
+		{Kind: "M", Term: "app", Stack: []string{"T"}, MH: []MReq{{Method: "GET", Path: "/s", Mode: "F", Status: 200, Size: 2000}, {Method: "GET", Path: "/p/1", Mode: "G", Size: 300}}},
+		{Kind: "M", Term: "app", Stack: []string{"M"}, MH: []MReq{{Method: "GET", Path: "/s", Mode: "G", Size: 1000}}},
+		{Kind: "M", Term: "app", Wire: true, Stack: []string{"T", "M"}, MH: []MReq{{Method: "GET", Path: "/s", Mode: "F", Status: 201, Size: 4096}}},
 	}
 }
